@@ -745,7 +745,12 @@ func parseBinOps(expr string, n *promParser.BinaryExpr) (src []Source) {
 			before := labelSnapshot(s)
 			if n.VectorMatching.On {
 				s.FixedLabels = true
-				s = includeLabel(s, n.VectorMatching.MatchingLabels...)
+				// on(...) keeps labels the left hand side has, it cannot add any.
+				for _, name := range n.VectorMatching.MatchingLabels {
+					if before.CanHaveLabel(name) {
+						s = includeLabel(s, name)
+					}
+				}
 				s = restrictIncludedLabels(s, n.VectorMatching.MatchingLabels)
 				s = restrictGuaranteedLabels(s, n.VectorMatching.MatchingLabels)
 				s = excludeAllLabels(
@@ -810,7 +815,11 @@ func parseBinOps(expr string, n *promParser.BinaryExpr) (src []Source) {
 			// foo * on(instance) group_left(a,b) bar{x="y"}
 			// then only group_left() labels will be included.
 			if n.VectorMatching.On {
-				s = includeLabel(s, n.VectorMatching.MatchingLabels...)
+				for _, name := range n.VectorMatching.MatchingLabels {
+					if before.CanHaveLabel(name) {
+						s = includeLabel(s, name)
+					}
+				}
 			}
 			if s.Operation == "" {
 				s.Operation = n.VectorMatching.Card.String()
@@ -837,7 +846,11 @@ func parseBinOps(expr string, n *promParser.BinaryExpr) (src []Source) {
 			before := labelSnapshot(s)
 			s = includeLabel(s, n.VectorMatching.Include...)
 			if n.VectorMatching.On {
-				s = includeLabel(s, n.VectorMatching.MatchingLabels...)
+				for _, name := range n.VectorMatching.MatchingLabels {
+					if before.CanHaveLabel(name) {
+						s = includeLabel(s, name)
+					}
+				}
 			}
 			if s.Operation == "" {
 				s.Operation = n.VectorMatching.Card.String()
